@@ -4,6 +4,14 @@ Shape: reference-model monitor at the observable.  Every declaration is mirrored
 (plain data, no kafe2 imports); after every parameter change `fit.cost_function_value` (and
 total_cov_mat / total_error / model for localisation) is compared with the documented formula
 evaluated from scratch.
+
+Multi-fits (every fourth case): 2-3 members with own sources and constraints are combined into a MultiFit;
+a script declares 0-2 sources shared through MultiFit.add_error / add_matrix_error, moves the parameters,
+disables / enables shared sources (through the multi-fit) and member sources (through the multi-fit or the
+member), declares further sources and constraints late, and the cost is read after (almost) every step.
+Reference: sum of the documented member costs, or - once a source is shared - the joint form over the chi2
+members (own blocks + every enabled shared source in the diagonal and off-diagonal blocks of its members,
+x part projected with the analytic slopes) + ln det V + all constraint costs + the costs of the other members.
 """
 import numpy as np
 
@@ -18,13 +26,25 @@ RULE = (
     "fit type x cost alias (every key of the three STRING_TO_COST_FUNCTION tables) x <=4 uncertainty sources "
     "(simple/matrix, abs/rel, data/model reference, x/y, corr in {0,(0,1),1}, scalar/vector/with zeros, random order, "
     "model-referenced first or only) x <=2 constraints x disable/enable x 3 parameter points; non-trivial = >=1 enabled "
-    "source that is correlated, relative, on x or model-referenced, or >=1 constraint; distinct by case hash"
+    "source that is correlated, relative, on x or model-referenced, or >=1 constraint; distinct by case hash; "
+    "every 4th case: MultiFit of 2-3 members (xy / indexed / histogram / unbinned, every alias without shared sources; with shared sources the sharing members are "
+    "xy / indexed of equal size with a covariance-chi2 alias) with own sources (x sources on polynomials of degree <= 2) and constraints, 0-2 sources shared through "
+    "MultiFit.add_error / add_matrix_error (simple with correlation / matrix, y or x, all members or a subset), then a script of 5-12 steps over "
+    "{parameter point, disable / enable of a shared source through the multi-fit, of a member source through the multi-fit or the member, shared source declared "
+    "late, member source declared late (through the member or MultiFit.add_error(fits=<int>)), constraint on the multi-fit or a member, do_fit}; the cost is read "
+    "after every step except those marked 'noread' (20 %) and compared with the sum of the member costs / the joint form r^T V^-1 r + ln det V + constraint costs"
 )
 ASSUMPTIONS = [
     "parameter points are restricted to positive-definite total covariance with cond <= 1e8 (measured on the reference; others discarded and counted)",
     "Poisson-type costs only with admissible data (non-negative integer counts) and positive model values",
     "documented formulas: docstrings of kafe2/fit/_base/cost.py (Gaussian NLL = standard normal pdf; Gauss approximation V~ = V + diag(m))",
     "x-uncertainties are projected with the analytic slope; for models other than polynomials of degree <= 2 the comparison allows the analytic bound of the implementation's central-difference error (h^2/6 max|f3|, h = 0.01 sigma_x) propagated to V, sqrt(diag V) and the cost",
+    "multi-fits: documented cost = sum of the member costs + constraints declared on the multi-fit; as soon as a source is shared, the chi2 members enter the joint form "
+    "(own covariance blocks, every ENABLED shared source also in the blocks between its members, x part projected with the slopes of the two members, one log-determinant) "
+    "and the other members keep their own cost; joint covariance positive definite with cond <= 1e6 (as C10 / C11), other points discarded and counted",
+    "multi-fits: shared sources are absolute and data-referenced (relative ones and refusals are C11's workload); members that can carry x sources use polynomials of degree <= 2 "
+    "(central differences exact, the common step of the joint slope is immaterial); a shared source is only toggled through the multi-fit; "
+    "MultiFit.add_error(fits=<int>) is only used for xy members (it hands the axis keyword on to the member)",
 ]
 ANCHORS = [
     ("kafe2.fit._base.cost", "CostFunction.__call__"),
@@ -47,6 +67,13 @@ ANCHORS = [
     ("kafe2.fit.util", "log_determinant_qr"),
     ("kafe2.fit.util", "log_determinant_cholesky"),
     ("kafe2.fit.util", "log_determinant_pointwise"),
+    ("kafe2.fit.multi.fit", "MultiFit._init_shared_error_nodes"),
+    ("kafe2.fit.multi.fit", "MultiFit._add_error_object"),
+    ("kafe2.fit.multi.fit", "MultiFit._on_error_change"),
+    ("kafe2.fit.multi.fit", "MultiFit._set_error_enabled"),
+    ("kafe2.fit.multi.fit", "MultiFit.total_cov_mat"),
+    ("kafe2.fit.multi.cost", "MultiCostFunction.cost_sum"),
+    ("kafe2.fit.multi.cost", "SharedCostFunction.__init__"),
 ]
 
 XY_ALIASES = [a for a in COST_ALIASES if a != "gauss_approximation_covariance_fast"]
@@ -56,17 +83,27 @@ UNBINNED_ALIASES = ["nll", "negloglikelihood", "neg_log_likelihood"]
 
 def floors(tier):
     return {
-        "comparisons": {"cost_function_value": 800, "total_cov_mat": 400, "total_error": 400, "model": 800, "sensitivity.source-matters": 300, "sensitivity.disabled-omitted": 30},
-        "ops": ["add_error", "add_matrix_error", "disable_error", "enable_error", "add_parameter_constraint", "add_matrix_parameter_constraint", "set_all_parameter_values"],
+        "comparisons": {"cost_function_value": 800, "total_cov_mat": 400, "total_error": 400, "model": 800, "sensitivity.source-matters": 300, "sensitivity.disabled-omitted": 30,
+                        "multi.cost_function_value": 200, "multi.cost_function_value(sum form)": 30, "multi.cost_function_value(shared)": 150,
+                        "multi.cost_function_value(shared source toggled after an evaluation)": 60, "multi.cost_function_value(x sources in the joint form)": 30, "multi.total_cov_mat": 100},
+        "ops": ["add_error", "add_matrix_error", "disable_error", "enable_error", "add_parameter_constraint", "add_matrix_parameter_constraint", "set_all_parameter_values",
+                "multi.set_parameter_values", "multi.add_error.shared", "multi.add_matrix_error.shared", "multi.disable_error", "multi.enable_error", "member.disable_error"],
         "reach": ["%s:%s" % a for a in ANCHORS],
-        "sets": {"cost_alias_by_type": len(XY_ALIASES) + 2 * len(BASE_ALIASES) + 3, "source_features": 20},
-        "strata": ["model-referenced-first", "model-referenced-only", "x-source", "disabled-source", "matrix-constraint", "other-unit", "other-unit-after-fit"],
+        "sets": {"cost_alias_by_type": len(XY_ALIASES) + 2 * len(BASE_ALIASES) + 3, "source_features": 20, "multi_member_type_cost": 12},
+        "strata": ["model-referenced-first", "model-referenced-only", "x-source", "disabled-source", "matrix-constraint", "other-unit", "other-unit-after-fit",
+                   "multi", "multi:shared", "multi:shared-y-simple", "multi:shared-y-matrix", "multi:shared-x", "multi:two-shared", "multi:shared-source-toggled-after-an-evaluation",
+                   "multi:shared-source-disabled-before-first-evaluation-enabled-after-one", "multi:shared-source-declared-after-an-evaluation",
+                   "multi:member-source-declared-after-a-shared-source", "multi:member-source-toggled-through-multi-fit", "multi:member-source-toggled-through-member"],
         "distinct_nontrivial": 150,
     }
 
 
 # ------------------------------------------------------------------ generation
 def gen_case(rng, tier, idx, shard, nshards):
+    # every fourth case of a shard is a multi-fit; the single fits keep their own running index (stratification below)
+    if idx % 4 == 3:
+        return gen_multi(rng, tier, idx // 4, shard, nshards)
+    idx = idx - (idx + 1) // 4
     # stratified enumeration of (type, alias) first, then random
     combos = [("xy", a) for a in XY_ALIASES] + [("indexed", a) for a in BASE_ALIASES] + [("hist", a) for a in BASE_ALIASES] + [("unbinned", a) for a in UNBINNED_ALIASES]
     gi = idx * nshards + shard
@@ -172,6 +209,248 @@ def gen_case(rng, tier, idx, shard, nshards):
     return {"property": "C01", "unit": unit, "spec": spec, "ops": ops, "points": points, "fit_first": fit_first}
 
 
+# ------------------------------------------------------------------ generation: multi-fits
+CHI2_COV = sorted(a for a, f in COST_ALIASES.items() if f == "chi2_cov")
+MULTI_MODES = ["sum", "shared-toggled-after-read", "shared-disabled-before-first-read", "two-shared", "shared-x", "member-source-after-shared", "shared-after-read", "mixed"]
+
+
+def spec_n(spec):
+    return len(spec.get("y") or spec.get("data") or spec["edges"][:-1])
+
+
+def gen_member(rng, ftype, cost, prefix, n=None, x_ok=False, nsrc=None):
+    """one member fit: spec + own sources (first one on y, data-referenced; x sources only for polynomials of degree <= 2) + 0-1 own constraint"""
+    fid = COST_ALIASES[cost] if ftype != "unbinned" else "unbinned"
+    counts = fid in POISSON
+    if ftype in ("xy", "indexed"):
+        fam = str(rng.choice(["poly1", "poly2"] if (x_ok and ftype == "xy") else ["poly1", "poly2", "exponential", "trig", "gausspeak"]))
+        mk = gen.gen_xy_spec if ftype == "xy" else gen.gen_indexed_spec
+        spec = mk(rng, family=fam, cost=cost, counts=counts, n=n or int(rng.integers(5, 10)))
+    elif ftype == "hist":
+        spec = gen.gen_hist_spec(rng, cost=cost, n_bins=int(rng.integers(4, 8)))
+    else:
+        spec = gen.gen_unbinned_spec(rng, n=int(rng.integers(8, 30)))
+        spec["cost"] = cost
+    nn = spec_n(spec) if ftype != "unbinned" else 0
+    ops = []
+    if ftype != "unbinned" and fid not in ("nll_poisson", "nllr_poisson", "chi2_noerr"):
+        if nsrc is None:
+            nsrc = int(rng.integers(1, 4)) if fid in NEEDS_ERRORS else int(rng.integers(0, 3))
+        yscale = float(np.mean(np.abs(spec.get("y") or spec.get("data") or [10.0])) + 0.5)
+        for k in range(nsrc):
+            force = {"axis": "y", "reference": "data"} if k == 0 else {}
+            ops.append(gen.gen_source(rng, nn, ftype, "%se%d" % (prefix, k), yscale=yscale, force=force, allow_x=bool(x_ok and k > 0), allow_model=ftype in ("xy", "indexed")))
+    m = Model.from_spec(spec["model"])
+    if rng.random() < 0.35:
+        ops.append(gen.gen_constraint(rng, m.pnames, m.defaults))
+    return {"spec": spec, "setup": ops}
+
+
+def gen_multi(rng, tier, k, shard, nshards):
+    """MultiFit of 2-3 members + a script of declarations / toggles / parameter points; the cost is read after every step that is not
+    marked 'noread'.  The first 2 x len(MULTI_MODES) multi-fits of every shard enumerate the modes, afterwards they are drawn."""
+    strat = k < 2 * len(MULTI_MODES)
+    mode = MULTI_MODES[k % len(MULTI_MODES)] if strat else str(rng.choice(MULTI_MODES))
+    sub = int((k // len(MULTI_MODES) + shard) % 2) if strat else int(rng.integers(0, 2))
+    nm = 3 if mode == "two-shared" else int(rng.integers(2, 4))
+    shared_axes = {"sum": [], "shared-toggled-after-read": ["y"], "shared-disabled-before-first-read": ["y"], "two-shared": ["y", "y"], "shared-x": ["x"] + (["y"] if sub else []),
+                   "member-source-after-shared": ["y"], "shared-after-read": ["x" if sub == 0 else "y"],
+                   "mixed": [str(rng.choice(["x", "y"], p=[0.3, 0.7])) for _ in range(int(rng.integers(0, 3)))]}[mode]
+    late_axis = None
+    if mode == "member-source-after-shared":
+        late_axis = "x" if sub == 0 else "y"
+    elif mode in ("sum", "mixed") and rng.random() < 0.4:
+        late_axis = str(rng.choice(["x", "y"]))
+    any_x = "x" in shared_axes or late_axis == "x" or mode in ("shared-x", "mixed", "sum")
+    own_x = mode == "shared-x" or (mode in ("mixed", "sum") and rng.random() < 0.5)
+    # ---- members
+    S = []
+    if shared_axes:
+        S = sorted(int(i) for i in rng.choice(nm, size=nm if mode == "two-shared" else int(rng.integers(2, nm + 1)), replace=False))
+    n_s = int(rng.integers(5, 10))
+    late_member = int(rng.choice(S)) if (S and late_axis) else (int(rng.integers(0, nm)) if late_axis else None)
+    members = []
+    for j in range(nm):
+        need_xy = (j in S and "x" in shared_axes) or (j == late_member and late_axis == "x")
+        if j in S:
+            ftype, cost = ("xy" if need_xy else str(rng.choice(["xy", "indexed"], p=[0.6, 0.4]))), str(rng.choice(CHI2_COV))
+            nsrc = int(rng.integers(1, 4))
+        elif shared_axes:
+            # beside the sharing members: any type; Gaussian ones with the covariance chi2 (every chi2 member enters the joint form with its full matrix)
+            ftype = "xy" if need_xy else str(rng.choice(["xy", "indexed", "hist", "unbinned"], p=[0.4, 0.3, 0.2, 0.1]))
+            if ftype == "unbinned":
+                cost = str(rng.choice(UNBINNED_ALIASES))
+            elif ftype == "hist":
+                cost = str(rng.choice(["nll_poisson", "nllr_poisson", "gauss_approximation", "chi2"], p=[0.4, 0.2, 0.2, 0.2]))
+            else:
+                cost = str(rng.choice(CHI2_COV)) if rng.random() < 0.45 else str(rng.choice(["nll_gaussian", "nllr_gaussian", "nll_poisson", "nllr_poisson", "gauss_approximation", "gauss_approximation_pointwise"]))
+            nsrc = int(rng.integers(1, 3)) if COST_ALIASES.get(cost) == "chi2_cov" else None
+        else:
+            # no shared source: documented cost = sum of the member costs, every type and alias
+            ftype = "xy" if need_xy else str(rng.choice(["xy", "indexed", "hist", "unbinned"], p=[0.4, 0.3, 0.2, 0.1]))
+            cost = str(rng.choice({"xy": XY_ALIASES, "indexed": BASE_ALIASES, "hist": BASE_ALIASES, "unbinned": UNBINNED_ALIASES}[ftype]))
+            nsrc = None
+            if cost == "chi2" and j == late_member and rng.random() < 0.5:
+                nsrc = 0  # receives its first source after the multi-fit was built (implicit switch away from the no-errors chi2)
+        members.append(gen_member(rng, ftype, cost, "m%d" % j, n=n_s if j in S else None, x_ok=bool(ftype == "xy" and (need_xy or (own_x and any_x))), nsrc=nsrc))
+    # ---- parameter names in order of first appearance, start values
+    names, vals, mem = [], {}, []
+    for j, mb in enumerate(members):
+        m = Model.from_spec(mb["spec"]["model"])
+        mem.append(list(m.pnames))
+        for nme, v in zip(m.pnames, m.defaults):
+            if nme not in names:
+                names.append(nme)
+                vals[nme] = float(v)
+
+    def near():
+        pick = names if rng.random() < 0.6 else [names[int(i)] for i in rng.choice(len(names), size=int(rng.integers(1, len(names) + 1)), replace=False)]
+        return {n: float(np.round(vals[n] * (1.0 + rng.uniform(-0.12, 0.12)) + rng.uniform(-0.02, 0.02), 6)) for n in pick}
+
+    # ---- declared sources: name -> owner ("shared" or member index), enabled flag
+    owner, enabled, first = {}, {}, set()
+    for j, mb in enumerate(members):
+        srcs = [o[1]["name"] for o in mb["setup"] if o[0] in ("add_error", "add_matrix_error")]
+        for i, nme in enumerate(srcs):
+            owner[nme], enabled[nme] = j, True
+            if i == 0:
+                first.add(nme)
+
+    def shared_op(i, axis):
+        sub_s = list(S) if (i == 0 or len(S) < 3) else [S[0], S[-1]]
+        if axis == "x":
+            sub_s = [j for j in sub_s if members[j]["spec"]["type"] == "xy"]
+        kind = ["simple", "matrix"][(sub + i) % 2] if strat else str(rng.choice(["simple", "matrix"]))
+        force = {"axis": axis, "kind": kind, "relative": False, "reference": "data"}
+        if kind == "simple":
+            force["corr"] = float(np.round(rng.uniform(0.1, 0.9), 3)) if rng.random() < 0.7 else float(rng.choice([0.0, 1.0]))
+        yscale = float(np.mean([np.mean(np.abs(members[j]["spec"].get("y") or members[j]["spec"].get("data"))) for j in sub_s]) + 0.5)
+        op = gen.gen_source(rng, n_s, "xy", "sh%d" % i, yscale=yscale, force=force, allow_model=False)
+        a = dict(op[1])
+        has_xy = any(members[j]["spec"]["type"] == "xy" for j in sub_s)
+        a["axis"] = axis if (has_xy or rng.random() < 0.5) else None
+        a["fits"] = "all" if (len(sub_s) == nm and rng.random() < 0.3) else (sub_s[::-1] if rng.random() < 0.2 else sub_s)
+        return {"op": "shared", "add": [op[0], a]}
+
+    def member_source_op():
+        j = late_member
+        sp = members[j]["spec"]
+        if sp["type"] == "unbinned" or COST_ALIASES.get(sp["cost"]) in ("nll_poisson", "nllr_poisson"):
+            return None
+        yscale = float(np.mean(np.abs(sp.get("y") or sp.get("data") or [10.0])) + 0.5)
+        force = {"reference": "data"}
+        if sp["type"] == "xy":
+            force["axis"] = late_axis if (late_axis == "y" or Model.from_spec(sp["model"]).family in ("poly1", "poly2")) else "y"
+        op = gen.gen_source(rng, spec_n(sp), sp["type"], "m%dlate" % j, yscale=yscale, force=force, allow_model=False)
+        return {"op": "member_source", "member": j, "via": str(rng.choice(["member", "multi"])), "add": op}
+
+    def declare(step):
+        if step["op"] == "shared":
+            owner[step["add"][1]["name"]], enabled[step["add"][1]["name"]] = "shared", True
+        elif step["op"] == "member_source":
+            owner[step["add"][1]["name"]], enabled[step["add"][1]["name"]] = step["member"], True
+
+    def toggle(name=None, prefer_shared=False):
+        pool = sorted(owner)
+        if not pool:
+            return None
+        if name is None:
+            w = np.array([(6.0 if prefer_shared else 3.0) if owner[n] == "shared" else (0.4 if n in first else 2.0) for n in pool])
+            name = pool[int(rng.choice(len(pool), p=w / w.sum()))]
+        enabled[name] = not enabled[name]
+        via = "multi" if (owner[name] == "shared" or rng.random() < 0.5) else owner[name]
+        return {"op": "toggle", "what": "enable_error" if enabled[name] else "disable_error", "name": name, "via": via}
+
+    def constraint():
+        if rng.random() < 0.5:
+            return {"op": "constraint", "on": "multi", "add": gen.gen_constraint(rng, names, [vals[n] for n in names])}
+        j = int(rng.integers(0, nm))
+        return {"op": "constraint", "on": j, "add": gen.gen_constraint(rng, mem[j], [vals[n] for n in mem[j]])}
+
+    def tail(length, pending=(), prefer_shared=False):
+        out, pending = [], list(pending)
+        slots = sorted(int(i) for i in rng.choice(length, size=min(len(pending), length), replace=False)) if pending else []
+        for i in range(length):
+            if slots and i == slots[0]:
+                slots.pop(0)
+                st = pending.pop(0)
+                declare(st)
+                out.append(st)
+                continue
+            r = rng.random()
+            st = None
+            if r < 0.36:
+                st = {"op": "set", "values": near()}
+            elif r < 0.76:
+                st = toggle(prefer_shared=prefer_shared)
+            elif r < 0.86:
+                st = constraint()
+            else:
+                st = {"op": "read"}
+            if st is not None:
+                if st["op"] != "read" and rng.random() < 0.2:
+                    st["noread"] = True
+                out.append(st)
+        return out
+
+    sh = [shared_op(i, ax) for i, ax in enumerate(shared_axes)]
+    late = member_source_op() if late_axis else None
+    script = []
+
+    def put(st, noread=False):
+        if st is None:
+            return
+        declare(st)
+        if noread:
+            st["noread"] = True
+        script.append(st)
+
+    if mode == "shared-toggled-after-read":
+        put(sh[0])
+        put({"op": "set", "values": near()})
+        put(toggle("sh0"))
+        if rng.random() < 0.5:
+            put({"op": "set", "values": near()})
+        put(toggle("sh0"))
+        script += tail(int(rng.integers(2, 6)), prefer_shared=True)
+    elif mode == "shared-disabled-before-first-read":
+        put(sh[0], noread=True)
+        put(toggle("sh0"), noread=True)
+        put({"op": "set", "values": near()})
+        put(toggle("sh0"))
+        script += tail(int(rng.integers(2, 6)), prefer_shared=True)
+    elif mode == "two-shared":
+        put(sh[0], noread=bool(rng.random() < 0.5))
+        script += tail(int(rng.integers(6, 10)), pending=[sh[1]], prefer_shared=True)
+    elif mode == "shared-x":
+        put(sh[0], noread=True)  # before the first evaluation
+        script += tail(int(rng.integers(5, 9)), pending=sh[1:], prefer_shared=True)
+    elif mode == "member-source-after-shared":
+        put(sh[0], noread=bool(rng.random() < 0.3))
+        put({"op": "set", "values": near()})
+        put(late)
+        if rng.random() < 0.5:
+            put({"op": "set", "values": near()})
+        script += tail(int(rng.integers(2, 6)))
+    elif mode == "shared-after-read":
+        put({"op": "set", "values": near()})
+        if rng.random() < 0.5:
+            put(toggle())
+        put(sh[0])
+        put({"op": "read"})
+        put({"op": "set", "values": near()})
+        script += tail(int(rng.integers(2, 6)), prefer_shared=True)
+    else:  # sum / mixed
+        script += tail(int(rng.integers(6, 11)), pending=sh + ([late] if late else []))
+    if mode == "mixed" and rng.random() < 0.5:
+        script.append({"op": "do_fit"})
+        st = toggle(prefer_shared=True)
+        if st is not None:
+            script.append(st)
+    start = {n: float(np.round(vals[n] * (1.0 + rng.uniform(-0.1, 0.1)) + rng.uniform(-0.02, 0.02), 6)) for n in names}
+    return {"property": "C01", "kind": "multi", "mode": mode, "members": members, "start": start, "script": script, "minimizer": "iminuit"}
+
+
 # ------------------------------------------------------------------ execution + oracle
 def classify(case, ref, observable, extra=None):
     """Mechanism keys of open findings: predicate over the declared configuration + explain-check
@@ -237,6 +516,9 @@ def features(ctx, ref, case):
 
 
 def run_case(ctx, case):
+    if case.get("kind") == "multi":
+        ctx.reseed_legacy()
+        return run_multi(ctx, case)
     spec = case["spec"]
     ctx.reseed_legacy()
     fit = dsl.build_fit(spec)
@@ -377,6 +659,346 @@ def run_case(ctx, case):
                 finally:
                     s["enabled"] = saved
     return nontrivial
+
+
+# ------------------------------------------------------------------ multi-fits: execution + oracle
+K_MEMBER_X = "C01/multifit-x-source-declared-or-enabled-through-member-after-first-shared-source-is-ignored"
+K_STALE_SLOPE = "C01/multifit-x-sources-arriving-through-multifit-are-ignored-until-a-parameter-moves"
+
+
+def _arr(v):
+    return np.array(v, dtype=float) if isinstance(v, (list, tuple)) else v
+
+
+class MultiWorld:
+    """declared state of a multi-fit: member references (vlib.ref.RefFit), shared sources, constraints declared on the multi-fit, parameter values by name"""
+
+    def __init__(self, members, names):
+        self.members, self.names = members, names
+        self.values = {}
+        self.shared = []  # {"src": reference source (the same dict sits in the source list of every sharing member), "fits": [...], "axis": "x"/"y"}
+        self.multi_constraints = []
+        # bookkeeping for strata / classification
+        self.reads = 0
+        self.x_through_member = False  # an x source was declared / enabled through a member while sources are shared
+        self.sets_since_multi_error_change = 0
+
+    def push(self):
+        for mb in self.members:
+            mb.ref.p = np.array([self.values[n] for n in mb.ref.model.pnames], dtype=float)
+
+    def pvec(self):
+        return np.array([self.values[n] for n in self.names], dtype=float)
+
+    def chi2_members(self):
+        from vlib.ref import IS_CHI2
+
+        return [i for i, mb in enumerate(self.members) if mb.fid in IS_CHI2]
+
+    def enabled_x(self):
+        return any(s["enabled"] and s.get("axis") == "x" and np.any(np.asarray(s.get("err", 1.0), dtype=float) != 0) for i in self.chi2_members() for s in self.members[i].ref.sources)
+
+    def joint(self, x_part=True):
+        """joint covariance / residuals of the chi2 members: own blocks, every enabled shared source also in the blocks between its members;
+        x part projected with the analytic slopes of the two members concerned"""
+        from vlib.ref import source_cov
+
+        chi = self.chi2_members()
+        off, o = {}, 0
+        for i in chi:
+            off[i] = o
+            o += self.members[i].ref.n
+        Vy, Vx, g, r = np.zeros((o, o)), np.zeros((o, o)), np.zeros(o), np.zeros(o)
+        for i in chi:
+            ref = self.members[i].ref
+            sl = slice(off[i], off[i] + ref.n)
+            Vy[sl, sl] = ref.axis_cov("y")
+            if ref.type == "xy":
+                Vx[sl, sl] = ref.axis_cov("x")
+                g[sl] = ref.slope()
+            r[sl] = ref.d - ref.model_values()
+        for s in self.shared:
+            if not s["src"]["enabled"]:
+                continue
+            for a in s["fits"]:
+                for b in s["fits"]:
+                    if a != b:
+                        ra, rb = self.members[a].ref, self.members[b].ref
+                        (Vx if s["axis"] == "x" else Vy)[off[a] : off[a] + ra.n, off[b] : off[b] + rb.n] += source_cov(s["src"], ra.ref_values(s["src"], ra.p))
+        V = Vy + Vx * np.outer(g, g) if x_part else Vy
+        return V, r, chi
+
+    def expected(self, x_part=True):
+        """(documented cost, scale, details) or (None, reason)"""
+        from vlib.ref import constraint_cost
+
+        self.push()
+        mcc = float(sum(constraint_cost(c, self.pvec()) for c in self.multi_constraints))
+        members = self.members
+        if not self.shared:
+            if not all(mb.admissible() for mb in members):
+                return None, "configuration-not-admissible"
+            parts = [mb.cost() for mb in members]
+            nodet = [mb.cost(with_logdet=False) for mb in members]
+            scale = sum(abs(a) + abs(c - a) for c, a in zip(parts, nodet)) + sum(abs(mb.ref.constraint_cost()) for mb in members) + abs(mcc) + 1.0
+            return float(sum(parts)) + mcc, scale, {"form": "sum of the member costs", "member_costs": parts, "multi_constraint_cost": mcc}
+        chi = self.chi2_members()
+        rest = [i for i in range(len(members)) if i not in chi]
+        if not all(members[i].admissible() for i in rest) or not all(np.all(np.isfinite(members[i].ref.model_values())) for i in chi):
+            return None, "configuration-not-admissible"
+        V, r, chi = self.joint(x_part)
+        okV, cond = pd_info(V)
+        if not okV or cond > 1e6:
+            return None, "joint-covariance-not-pd-or-ill-conditioned"
+        chi2 = float(r @ np.linalg.solve(V, r))
+        logdet = float(np.linalg.slogdet(V)[1])
+        con = float(sum(members[i].ref.constraint_cost() for i in chi))
+        others = [members[i].cost() for i in rest]
+        onodet = [members[i].cost(with_logdet=False) for i in rest]
+        scale = abs(chi2) + abs(logdet) + abs(con) + sum(abs(a) + abs(c - a) for c, a in zip(others, onodet)) + abs(mcc) + 1.0
+        d = {"form": "joint", "chi2": chi2, "logdet": logdet, "constraint_cost_of_chi2_members": con, "cost_of_other_members": others, "multi_constraint_cost": mcc, "cond": cond, "V": V}
+        return chi2 + logdet + con + float(sum(others)) + mcc, scale, d
+
+
+def classify_multi(W, multi, got, scale):
+    """Open findings of the shared-source code of MultiFit, both about x uncertainties.  Explain-check: the reported cost equals the documented cost
+    with the x part of the joint covariance left out; the mechanism is told apart by the live switch of the x part (MultiFit._min_x_error)."""
+    try:
+        from vlib.monitor import allclose
+
+        if not W.shared or not W.enabled_x():
+            return None
+        alt = W.expected(x_part=False)
+        if got is None or alt[0] is None or not allclose(got, alt[0], 1e-9, 1e-12, scale=scale):
+            # without its x part the covariance may be singular (the cost computed from it is numerically meaningless):
+            # confirm the mechanism on the combined covariance matrix itself
+            W.push()
+            Valt = W.joint(x_part=False)[0]
+            got_V = np.array(multi.total_cov_mat, dtype=float)
+            if got_V.shape != Valt.shape or not allclose(got_V, Valt, 1e-9, 1e-300, scale=float(np.abs(Valt).max())):
+                return None
+        if getattr(multi, "_min_x_error", 0.0) is None:
+            return K_MEMBER_X if W.x_through_member else None
+        return K_STALE_SLOPE if W.sets_since_multi_error_change == 0 else None
+    except Exception:
+        return None
+
+
+def run_multi(ctx, case):
+    from kafe2.fit import MultiFit
+
+    from vlib.fitcase import Member
+    from vlib.monitor import OpTimeout, numerical_failure, time_limit
+    from vlib.ref import IS_CHI2
+
+    ctx.stratum("multi")
+    members = [Member(m["spec"], m["setup"], minimizer=case.get("minimizer")) for m in case["members"]]
+    for mb in members:
+        ctx.add_to_set("multi_member_type_cost", "%s:%s" % (mb.spec["type"], mb.spec.get("cost")))
+    for m in case["members"]:
+        for op in m["setup"]:
+            ctx.op("member." + op[0])
+    multi = MultiFit([mb.fit for mb in members], minimizer=case.get("minimizer"))
+    names = []
+    for mb in members:
+        for n in mb.ref.model.pnames:
+            if n not in names:
+                names.append(n)
+    W = MultiWorld(members, names)
+    # same-named parameters hold one common value: declared through the multi-fit before anything is read
+    multi.set_parameter_values(**case["start"])
+    W.values = dict(case["start"])
+    declared_at, toggled_shared, disabled_unread = {}, False, {}
+
+    def nwit():
+        return sum(ctx._wit_per_key.values())
+
+    def compare(where):
+        exp = W.expected()
+        if exp[0] is None:
+            ctx.discard(exp[1])
+            return True
+        exp, scale, d = exp
+        if not np.isfinite(exp):
+            ctx.discard("reference-cost-not-finite-at-this-point")
+            return True
+        V = d.pop("V", None)
+        n0 = nwit()
+        try:
+            got = float(multi.cost_function_value)
+        except Exception:
+            ctx.violation(classify_multi(W, multi, None, 1.0), "multi.cost_function_value.no-exception", {"traceback": fmt_exc(), "where": where})
+            return False
+        W.reads += 1
+        for nme in disabled_unread:
+            disabled_unread[nme] = True  # evaluated while disabled
+        ctx.close("multi.cost_function_value", got, exp, tol=Tol.LINALG, scale=scale, detail=dict(d, where=where, values=dict(W.values)), key=lambda: classify_multi(W, multi, got, scale))
+        if W.shared:
+            ctx._count("multi.cost_function_value(shared)")
+            if toggled_shared:
+                ctx._count("multi.cost_function_value(shared source toggled after an evaluation)")
+            if W.enabled_x():
+                ctx._count("multi.cost_function_value(x sources in the joint form)")
+        else:
+            ctx._count("multi.cost_function_value(sum form)")
+        if nwit() != n0:
+            return False
+        # localisation: the combined covariance matrix (all members Gaussian)
+        if V is not None and len(W.chi2_members()) == len(members):
+            try:
+                got_V = np.array(multi.total_cov_mat, dtype=float)
+            except Exception:
+                ctx.violation(None, "multi.total_cov_mat.no-exception", {"traceback": fmt_exc(), "where": where})
+                return False
+            ctx.close("multi.total_cov_mat", got_V, V, tol=Tol.LINALG, scale=float(np.abs(V).max()) + 1e-300, detail={"where": where}, key=lambda: classify_multi(W, multi, got, scale))
+        # sensitivity of the reference: every shared source changes the documented cost
+        for s in W.shared:
+            saved = s["src"]["enabled"]
+            s["src"]["enabled"] = not saved
+            try:
+                alt = W.expected()
+                if alt[0] is not None and abs(alt[0] - exp) > 1e-6 * scale:
+                    ctx.note("shared-sources-proven-not-ignored" if saved else "disabled-shared-sources-proven-omitted")
+            except Exception:
+                pass
+            finally:
+                s["src"]["enabled"] = saved
+        return nwit() == n0
+
+    for i, st in enumerate(case["script"]):
+        k = st["op"]
+        where = "after step %d (%s)" % (i, k)
+        try:
+            if k == "set":
+                ctx.op("multi.set_parameter_values")
+                multi.set_parameter_values(**st["values"])
+                W.values.update(st["values"])
+                W.sets_since_multi_error_change += 1
+            elif k == "read":
+                pass
+            elif k == "toggle":
+                name, what, via = st["name"], st["what"], st["via"]
+                is_shared = any(s["src"]["name"] == name for s in W.shared)
+                src = [s for mb in members for s in mb.ref.sources if s["name"] == name][0]
+                if via == "multi":
+                    ctx.op("multi." + what)
+                    getattr(multi, what)(name)
+                    W.sets_since_multi_error_change = 0
+                    W.x_through_member = False
+                    ctx.stratum("multi:shared-source-toggled" if is_shared else "multi:member-source-toggled-through-multi-fit")
+                else:
+                    ctx.op("member." + what)
+                    getattr(members[via].fit, what)(name)
+                    ctx.stratum("multi:member-source-toggled-through-member")
+                    if W.shared and src.get("axis") == "x" and what == "enable_error" and members[via].fid in IS_CHI2:
+                        W.x_through_member = True
+                for mb in members:
+                    dsl.apply_ref(mb.ref, mb.spec, [what, name])
+                if is_shared:
+                    if W.reads > declared_at[name]:
+                        toggled_shared = True
+                        ctx.stratum("multi:shared-source-toggled-after-an-evaluation")
+                    if what == "disable_error" and W.reads == declared_at[name]:
+                        disabled_unread[name] = False
+                    if what == "enable_error" and disabled_unread.pop(name, False):
+                        ctx.stratum("multi:shared-source-disabled-before-first-evaluation-enabled-after-one")
+                    if src.get("axis") == "x":
+                        ctx.stratum("multi:shared-x-source-toggled")
+            elif k == "shared":
+                sop, a = st["add"]
+                ctx.op("multi.%s.shared" % sop)
+                fits = list(range(len(members))) if a["fits"] == "all" else [int(j) for j in a["fits"]]
+                axis = a["axis"] or "y"
+                if sop == "add_error":
+                    multi.add_error(err_val=_arr(a["err"]), fits=a["fits"], axis=a["axis"], name=a["name"], correlation=a.get("corr", 0.0), relative=False, reference="data")
+                    src = {"kind": "simple", "axis": axis, "err": a["err"], "corr": a.get("corr", 0.0), "relative": False, "reference": "data", "enabled": True, "name": a["name"]}
+                else:
+                    multi.add_matrix_error(err_matrix=np.array(a["matrix"], dtype=float), matrix_type=a["matrix_type"], fits=a["fits"], axis=a["axis"], name=a["name"], err_val=_arr(a.get("err_val")), relative=False, reference="data")
+                    src = {"kind": "matrix", "axis": axis, "matrix": a["matrix"], "matrix_type": a["matrix_type"], "err_val": a.get("err_val"), "relative": False, "reference": "data", "enabled": True, "name": a["name"]}
+                for j in fits:
+                    members[j].ref.sources.append(src)
+                W.shared.append({"src": src, "fits": fits, "axis": axis})
+                declared_at[a["name"]] = W.reads
+                W.sets_since_multi_error_change = 0
+                W.x_through_member = False
+                ctx.stratum("multi:shared")
+                ctx.stratum("multi:shared-%s-%s" % (axis, src["kind"]))
+                if len(W.shared) > 1:
+                    ctx.stratum("multi:two-shared")
+                if W.reads:
+                    ctx.stratum("multi:shared-source-declared-after-an-evaluation")
+                if len(fits) < len(members):
+                    ctx.stratum("multi:shared-by-a-subset")
+            elif k == "member_source":
+                j, op = st["member"], st["add"]
+                mb = members[j]
+                through_multi = st["via"] == "multi" and mb.spec["type"] == "xy"  # MultiFit.add_error(fits=<int>) hands 'axis' on: xy members only
+                if through_multi:
+                    ctx.op("multi.%s.fits=int" % op[0])
+                    a = op[1]
+                    if op[0] == "add_error":
+                        multi.add_error(err_val=_arr(a["err"]), fits=j, axis=a["axis"], name=a["name"], correlation=a.get("corr", 0.0), relative=a.get("relative", False), reference=a.get("reference", "data"))
+                    else:
+                        multi.add_matrix_error(err_matrix=np.array(a["matrix"], dtype=float), matrix_type=a["matrix_type"], fits=j, axis=a["axis"], name=a["name"], err_val=_arr(a.get("err_val")), relative=a.get("relative", False), reference=a.get("reference", "data"))
+                    from vlib.fitcase import norm_op
+
+                    dsl.apply_ref(mb.ref, mb.spec, norm_op(mb.spec, op))
+                else:
+                    ctx.op("member.%s.late" % op[0])
+                    mb.apply(op)
+                ctx.stratum("multi:member-source-declared-after-the-multi-fit-was-built")
+                if len(mb.ref.sources) == 1:
+                    ctx.stratum("multi:first-source-of-a-member-declared-after-the-multi-fit-was-built")
+                if W.shared:
+                    ctx.stratum("multi:member-source-declared-after-a-shared-source")
+                    if mb.ref.sources[-1].get("axis") == "x" and mb.fid in IS_CHI2:
+                        W.x_through_member = True
+            elif k == "constraint":
+                op = st["add"]
+                if st["on"] == "multi":
+                    ctx.op("multi." + op[0])
+                    dsl.apply_live(multi, {"type": "multi"}, op)
+                    a = op[1]
+                    if op[0] == "add_parameter_constraint":
+                        W.multi_constraints.append({"kind": "simple", "index": names.index(a["name"]), "value": a["value"], "uncertainty": a["uncertainty"], "relative": a.get("relative", False)})
+                    else:
+                        W.multi_constraints.append({"kind": "matrix", "indices": [names.index(n) for n in a["names"]], "values": a["values"], "matrix": a["matrix"], "matrix_type": a["matrix_type"], "uncertainties": a.get("uncertainties"), "relative": a.get("relative", False)})
+                else:
+                    ctx.op("member." + op[0])
+                    members[st["on"]].apply(op)
+                    if W.shared and members[st["on"]].fid in IS_CHI2:
+                        ctx.stratum("multi:constraint-on-chi2-member-after-shared")
+            elif k == "do_fit":
+                if W.expected()[0] is None:
+                    ctx.discard("do_fit-skipped-inadmissible")
+                    continue
+                ctx.op("multi.do_fit")
+                try:
+                    with time_limit(30.0):
+                        multi.do_fit()
+                except OpTimeout:
+                    ctx.discard("do_fit-did-not-end-within-30s")
+                    return True
+                except Exception as e:
+                    if numerical_failure(e):
+                        ctx.discard("do_fit-failed-numerically")
+                        return True
+                    raise
+                for n, v in zip(multi.parameter_names, multi.parameter_values):
+                    W.values[n] = float(v)
+                W.sets_since_multi_error_change += 1
+                ctx.stratum("multi:after-do_fit")
+        except Exception:
+            ctx.violation(None, "multi.%s.no-exception" % k, {"traceback": fmt_exc(), "step": st, "index": i})
+            return True
+        if st.get("noread"):
+            continue
+        if not compare(where):
+            break
+    for s in W.shared:
+        if s["axis"] == "x":
+            ctx.stratum("multi:shared-x")
+    return True
 
 
 def run_shard(ctx):
